@@ -236,7 +236,7 @@ theorem expandH_step (tbl : List MacroDef) (hobj : ∀ m ∈ tbl, m.func = false
       simp only [hf, Bool.false_and, Bool.false_eq_true, ↓reduceIte, not_false_eq_true]
       split
       · rfl
-      · rfl
+      · exact outKeys_flag _ _ _
 
 theorem respace_map_erase (l : List Tok) (sp : Bool) (h : List Name) :
     (((respace l sp).map (mkH h)).map Item.tok).map erase = ((l.map (mkH h)).map Item.tok).map erase := by
